@@ -3,8 +3,9 @@
    structure.  No proofs here.
 
    Conventions
-   - a byte is an N (Go: byte, always < 256); a stateID is an N (Go: uint16,
-     the conversion stateID(int) is written [to_state_id], i.e. mod 65536);
+   - a byte is an N (Go: byte, always < 256); a stateID is an N (Go: int; the
+     conversion stateID(i) of a slice index or length is written [to_state_id]
+     and is exact);
    - a Go slice is a list; every slice/array index that can be out of range in
      Go is an explicit [Panic] here (helpers return [None] for "index out of
      range", the callers turn that into [Panic]);
@@ -59,7 +60,7 @@ Fixpoint nrepeat {A} (x : A) (n : nat) : list A :=
 Definition zeros_like {A B} (z : B) (l : list A) : list B := map (fun _ => z) l.
 
 (* stateID(i) for an int i >= 0 *)
-Definition to_state_id (i : N) : N := i mod 65536.
+Definition to_state_id (i : N) : N := i.
 
 (* ---------- addState, addTransition ---------- *)
 
